@@ -666,9 +666,13 @@ func c19Case(r *rand.Rand, n int, tag string, dups int, tier string) []string {
 	}
 	ops = append(ops, "export", fmt.Sprintf("recompute %d %sb", n2, tag), "checkexport 0", "allpaths",
 		fmt.Sprintf("pathidx %d", n2-1), "export",
-		fmt.Sprintf("loadcompute 0 %d %sc", sizes(), tag), "checkexport 0", "checkexport 1",
-		fmt.Sprintf("loadcompute 1 %d %sd", n2, tag), "checkexport 1",
-		fmt.Sprintf("recompute %d %se", sizes(), tag), "checkexport 1", "checkexport 0", "allpaths")
+		fmt.Sprintf("loadcompute 0 %d %sc", sizes(), tag), "checkexport 0")
+	if n <= 300 {
+		// (large trees: one round is enough; every checkexport re-verifies all paths)
+		ops = append(ops, "checkexport 1",
+			fmt.Sprintf("loadcompute 1 %d %sd", n2, tag), "checkexport 1",
+			fmt.Sprintf("recompute %d %se", sizes(), tag), "checkexport 1", "checkexport 0", "allpaths")
+	}
 	return ops
 }
 
